@@ -415,6 +415,16 @@ def solve_milp(c, A, b, ints, minimize=True, eps=F(1, 10**6), max_iter=10000, ma
     nodes = 0
     hit = False
     nid = 0
+    pending_tags = []
+    noisy_nodes = []
+
+    def fin(result):
+        # the final objective equals the (integer) LP value of a branched node whose double-precision value carries noise
+        for tag, v in noisy_nodes:
+            if result["objective"] == v:
+                fr.ev(tag + "_attained")
+        return result, fr
+
     while tree and nodes < max_nodes:
         nb, _, (lo, up, depth, parent) = tree.pop(0)
         if best is not None:
@@ -452,10 +462,17 @@ def solve_milp(c, A, b, ints, minimize=True, eps=F(1, 10**6), max_iter=10000, ma
                     return res("FEASIBLE", bs, bo, nodes, list(allsol)), fr
             if best is None or sign * obj < sign * best[1]:
                 fr.ev("incumbent_from_tree" if best is None else "incumbent_improved")
+                for tag in pending_tags:
+                    fr.ev(tag + "_then_improved")            # an incumbent found in that special situation was not the final one
+                pending_tags = []
                 best = (sol, obj)
                 bound = sign * nb
                 if obj != 0 and obj == -bound:
                     fr.ev("incumbent_equals_minus_bound" + ("_max" if not minimize else "_min"))
+                    pending_tags.append("incumbent_equals_minus_bound" + ("_max" if not minimize else "_min"))
+                if obj == bound and tree:
+                    fr.ev("incumbent_equals_bound_open_nodes")
+                    pending_tags.append("incumbent_equals_bound_open_nodes")
                 if obj * bound < 0:
                     fr.ev("incumbent_and_bound_opposite_signs" + ("_max" if not minimize else "_min"))
                 if obj == 0 or bound == 0:
@@ -468,11 +485,15 @@ def solve_milp(c, A, b, ints, minimize=True, eps=F(1, 10**6), max_iter=10000, ma
                 fr.near(gap, gap_tol, "gap < gap_tol")
                 if gap < gap_tol and solution_limit == 1 and not hit:
                     fr.ev("gap_exit_open_nodes" if tree else "gap_exit_tree_empty")
-                    return res("OPTIMAL", sol, obj, nodes), fr
+                    return fin(res("OPTIMAL", sol, obj, nodes))
             continue
         val = sol[fv]
         cb = sign * obj
         fr.ev("branch")
+        if fobj_float is not None and obj.denominator == 1 and fobj_float != float(obj):
+            tag = "frac_node_int_value_noise_" + ("up" if sign * fobj_float > sign * float(obj) else "down") + ("_max" if not minimize else "_min")
+            fr.ev(tag)
+            noisy_nodes.append((tag, obj))
         if obj.denominator == 1:
             fr.ev("int_lp_value_fractional_point" + ("" if all(v.denominator & (v.denominator - 1) == 0 for v in sol) else "_nondyadic"))
         if val > 1:
@@ -499,4 +520,4 @@ def solve_milp(c, A, b, ints, minimize=True, eps=F(1, 10**6), max_iter=10000, ma
         return res("MAX_ITER" if (hit or tree) else "INFEASIBLE", None, worst, nodes), fr
     status = "OPTIMAL" if not tree and not hit else "FEASIBLE"
     sols = list(allsol) if solution_limit > 1 and allsol else None
-    return res(status, best[0], best[1], nodes, sols), fr
+    return fin(res(status, best[0], best[1], nodes, sols))
